@@ -24,7 +24,7 @@ def opsData : List WOp → List Byte
   | .update :: r => opsData r
 
 theorem f32beWrite_length (v : Nat) : (f32beWrite v).length = 4 := by
-  unfold f32beWrite; split <;> simp [beBytes4]
+  unfold f32beWrite; simp [beBytes4]
 
 theorem flatMap_len8 (f : Nat → List Byte) (hf : ∀ k, (f k).length = 8) (n : Nat) : ((List.range n).flatMap f).length = 8 * n := by
   induction n with
